@@ -401,7 +401,7 @@ fn main() {
         return;
     }
     let threads = a.pick(2, 14) as u64;
-    let per_thread = a.pick(150_000u64, 2_000_000u64);
+    let per_thread = a.pick(150_000u64, 8_000_000u64);
     std::thread::scope(|s| {
         for shard in 0..threads {
             let rep = &rep;
